@@ -162,6 +162,21 @@ def cert_worker(smt2, nrel, elim, order, timeout_s, bound_mode=False):
                 den = sympy.factor(den)
         except NotImplementedError as e:
             return {'ok': False, 'why': 'not polynomial: %s' % e, 'time': time.time() - t0}
+        if el and Gs and order == 'lex':
+            # the relations are not a Groebner basis: multivariate division tries the divisors in list order, so put the relation whose
+            # leading term involves the most significant eliminated variable first and, among those, mixed products (L10*L00) before
+            # pure powers (L00^2) - the ordering under which Cholesky-type relation sets reduce completely.  (Only a heuristic for the
+            # untrusted search: z3 checks the identity with the relations in this same order.)
+            def _rank(g):
+                try:
+                    lt = sympy.LT(g, *syms, order='lex')
+                except Exception:
+                    return (len(el), 1)
+                vs_ = [el.index(str(x)) for x in lt.free_symbols if str(x) in el]
+                return (min(vs_) if vs_ else len(el), 0 if len(vs_) >= 2 else 1)
+            perm = sorted(range(len(Gs)), key=lambda i_: _rank(Gs[i_]))
+            Gs = [Gs[i_] for i_ in perm]
+            G = [G[i_] for i_ in perm]
         if Ns == 0:
             q, r = [sympy.Integer(0)] * len(Gs), sympy.Integer(0)
         elif not Gs:
